@@ -32,7 +32,7 @@ LEVEL_TEXT = "held for every generated input; no statement about inputs not gene
 LEVEL_NOTE = "the Python secp256k1 implementations are trusted"
 REQUIRED = ["valid_keys", "invalid_keys", "keys_generated", "pubkey_accepted", "pubkey_rejected", "hybrid_accepted", "x_ge_p_rejected",
             "signed_grind", "signed_rfc6979", "signed_entropy", "grind_iterations",
-            "node_accept", "node_reject", "strict_accept", "node_accept_strict_reject", "high_s_node_accept", "lax_node_accept", "crafted_valid",
+            "node_accept", "node_reject", "strict_accept", "node_accept_strict_reject", "high_s_node_accept", "lax_node_accept", "crafted_valid", "crafted_valid_xr_ge_n",
             "s_at_half_order_valid", "bip340_vectors", "schnorr_signed_plain", "schnorr_signed_tweaked", "schnorr_accept", "schnorr_reject", "schnorr_odd_R_rejected",
             "taptweak_created", "taptweak_checked", "taptweak_refused", "lib_tweaks", "tweak_to_infinity_refused",
             "ellswift_vectors", "ellswift_decoded", "ellswift_created", "ecdh_pairs", "cross_checked"]
@@ -246,9 +246,11 @@ def _verify(rec, st):
             st.seen("high_s_node_accept")
         if cls.startswith("lax:") and strict is None:
             st.seen("lax_node_accept")
-        if cls == "crafted-recovered":
+        if cls.startswith("crafted-recovered"):
             st.seen("crafted_valid")
             st.seen("crafted_valid_r:" + _cls(_i(rec["r"])))
+            if cls.endswith("xr-ge-n"):
+                st.seen("crafted_valid_xr_ge_n")
         st.seen("node_accept_pk:" + rec["pcls"])
     if _sampled(rec, 37) and pt is not None and lax is not None and 0 < lax[0] < N and 0 < lax[1] < N:
         r, s = lax
